@@ -12,7 +12,7 @@ from jugverif import core
 LEVEL = 'proof'
 THEOREMS = ['Jug.C19.live_never_failed', 'Jug.C19.start_inv', 'Jug.C19.dead_eventually_failed', 'Jug.C19.terminates_parent_gone', 'Jug.C19.terminates_lock_gone',
             'Jug.C19.constants_safe', 'Jug.C19.loop_matches', 'Jug.C19.exits_match', 'Jug.C19.helper_started_plainly', 'Jug.C19.round_live',
-            'Jug.C19.run_mtime_le_now', 'Jug.C19.lock_gone_stops', 'Jug.C19.dead_worker_run', 'Jug.C19.stopped_is_final', 'Jug.C19.runEnv_live',
+            'Jug.C19.run_mtime_le_now', 'Jug.C19.lock_gone_stops', 'Jug.C19.dead_worker_run', 'Jug.C19.stopped_is_final', 'Jug.C19.runEnv_live', 'Jug.C19.live_never_failed_code', 'Jug.C19.dead_worker_code',
             'Jug.KALockProps.held_lock_has_helper', 'Jug.KALockProps.get_spec', 'Jug.KALockProps.let_go_stops_helper', 'Jug.KALockProps.no_orphans_without_interference']
 
 
